@@ -21,7 +21,7 @@ PROPS = {
                 "series keys from an adversarial alphabet, known series written again), index flush, cache clear, clean close + reopen on a fresh "
                 "copy of the directory with logical clock + 1, lookups and searches of 3-8 generated predicate trees (=, !=, =~, !~, AND/OR/parentheses, "
                 "depth <= 3) through SearchSeriesByTableAndCond, SearchSeriesKeys, SeriesCardinality, SearchTagValues(+Cardinality) and "
-                "SearchSeriesWithOpts; every answer is compared with a brute-force evaluation over the map of written series "
+                "SearchSeriesWithOpts (time-range variants where the entry point takes one); every leaf is first handed to tagFilter.Init / matchSuffix on its own; every answer is compared with a brute-force evaluation over the map of written series "
                 "(series created since the last flush may or may not be listed - the table makes raw items searchable within its 1 s flush interval). "
                 "Ids: one per distinct key, never changed, never shared, key->id and id->key agree, never-written neighbour keys resolve to nothing. "
                 "evaluations = runs + searches + lookups. A history is non-trivial if it created series, evaluated at least one predicate with a "
@@ -31,8 +31,10 @@ PROPS = {
                    "more than MaxTSIDsPerRow (64) series in one measurement"],
         "assumptions": ["clean close / reopen only (crash is not in this property's quantifier); a reopened incarnation gets logical clock + 1 and a fresh sequence counter",
                         "series created since the last index flush may or may not be visible to searches (visibility delay of the mergeset raw-items flusher, 1 s); ids are exact at all times",
-                        "with knob bg=false the table's background flusher and mergers are parked (Table.StopMergeAndFlusher) so that visibility does not depend on the wall clock; with bg=true they run and a cache clear takes an explicit flush first"],
-        "quick": {"runs": 2200, "budget_s": 120, "workers": 14},
-        "thorough": {"runs": 30000, "budget_s": 1500, "workers": 16},
+                        "with knob bg=false the table's background flusher and mergers are parked (Table.StopMergeAndFlusher) so that visibility does not depend on the wall clock; with bg=true they run and a cache clear takes an explicit flush first",
+                        "bloom-filter cases (6%) are kept short (each flush writes ~120 MB of filter files) and skip the seam-completeness check; persistent-read-cache cases skip it too (fastcache writes with os calls)",
+                        "a panic inside a search leaves the search's table cursor open; with bg=true conditions whose prune path is known to panic are not sent through SearchSeriesWithOpts (they are with bg=false)"],
+        "quick": {"runs": 22000, "budget_s": 110, "workers": 14},
+        "thorough": {"runs": 300000, "budget_s": 1500, "workers": 16},
     },
 }
